@@ -164,6 +164,24 @@ def conc_stage(ctx, zr, eng, stats, samples):
             stats["mismatches"] += 1
 
 
+def emptykey_flush_stage(ctx, zr, stats):
+    """Isolate stage of the recorded finding pebble-empty-key-flush: with the empty key stored,
+    a memtable flush (manual compaction here) of the vendored pebble never completes.  The
+    general corpus leaves flushing maintenance calls out of pools that hold the empty key."""
+    d = ctx.sub("run-pebble-isolate-emptyflush")
+    args = ["-random", "4", "-len", "60", "-seed", str(ctx.seed), "-pool", "2", "-defwb", "-emptyflush"]
+    rc, out = V.run(ctx, [zr, "engsim", "-eng", "pebble", "-o", os.path.join(d, "t"), "-parts", "1"] + args,
+                    timeout=120, env={"ZR_SCRATCH": d})
+    stats["runs"].append({"mode": "isolate-emptyflush", "rc": rc})
+    if rc == 124 and "keys must be added in order" in out:
+        V.report_failure(ctx, {"engine": "pebble", "class": "empty-key-flush"},
+                         "pebble engine: manual compaction with the empty key stored never returns "
+                         "(background error: keys must be added in order)", script={"engsim": args, "engine": "pebble"})
+    elif rc != 0:
+        ctx.log("isolate-emptyflush did not complete (rc=%s) without the finding's signature; skipped" % rc)
+        ctx.skipped += 1
+
+
 def run(ctx):
     rnd = random.Random(ctx.seed)
     zr = V.go_build(ctx, files=["engsim.go", "engconc.go"])
@@ -219,6 +237,7 @@ def run(ctx):
                        ["-random", "100" if ctx.quick() else "1000", "-len", "80", "-seed", seed,
                         "-pool", str([1, 4, 2, 3, 5][ctx.seed % 5]), "-indep"],
                        True, stats, samples)
+    emptykey_flush_stage(ctx, zr, stats)
     for eng in ("pebble", "mem"):
         conc_stage(ctx, zr, eng, stats, samples)
     if not ctx.quick():
